@@ -123,6 +123,104 @@ func VH_listener() {
 	vapi.Cover("closed")
 }
 
+// drainWrap consumes everything buffered so far and continues on a connection
+// made with cx.Wrap (what the tls handler does after a ClientHello).
+type drainWrap struct {
+	conns    []*env.SymConn
+	consumed []int
+}
+
+func (d *drainWrap) Handle(cx *layer4.Connection, next layer4.Handler) error {
+	idx := -1
+	for i := range d.conns {
+		if cx.RemoteAddr().String() == d.conns[i].RemoteAddr().String() {
+			idx = i
+		}
+	}
+	n := len(cx.MatchingBytes())
+	p := make([]byte, n)
+	m, _ := io.ReadFull(cx, p)
+	d.consumed[idx] = m
+	vapi.Cover("handler consumed the buffered bytes and wrapped")
+	return next.Handle(cx.Wrap(cx.Conn))
+}
+
+// VH_listener_wrap: like VH_listener, with a first route whose handler consumes
+// what was buffered and continues on a wrapped connection; the second route's
+// matcher then prefetches more on the wrapped connection. What falls through is
+// delivered reading the client's stream from the first byte no handler consumed,
+// whatever other connections do with pooled buffers in the meantime.
+func VH_listener_wrap() {
+	k := vapi.Param("CONNS", 2)
+	var conns []*env.SymConn
+	var streams [][]byte
+	for i := 0; i < k; i++ {
+		d := vapi.Bytes([]string{"A", "B", "C"}[i], vapi.Param("L", 4))
+		streams = append(streams, d)
+		conns = append(conns, &env.SymConn{D: d, MaxReads: 5, Remote: &net.TCPAddr{IP: net.IP{10, 0, 0, byte(10 + i)}, Port: 1000}})
+	}
+	m0 := &env.At{N: vapi.Int("N", 0, 1), K: vapi.Uint8("K"), V0: vapi.Bool("V0")}
+	m1 := &env.At{N: vapi.Int("N", 0, 1), K: vapi.Uint8("K"), V0: vapi.Bool("V0")}
+	handled := 0
+	dw := &drainWrap{conns: conns, consumed: make([]int, k)}
+	rl := layer4.RouteList{
+		layer4.VerifNewRoute([]layer4.MatcherSet{{m0}}, []layer4.NextHandler{dw}),
+		layer4.VerifNewRoute([]layer4.MatcherSet{{m1}}, []layer4.NextHandler{term{&handled}}),
+	}
+	lw := layer4.VerifNewListenerWrapper(rl, 3*time.Second)
+	base := &baseListener{conns: conns, closed: make(chan struct{})}
+	li := lw.WrapListener(base)
+	vapi.Yield()
+
+	falls := func(i int) bool {
+		c := dw.consumed[i]
+		return m1.Ref(streams[i], c, len(streams[i])-c) == 1 && m0.Ref(streams[i], 0, len(streams[i])) != 0
+	}
+	expect := 0
+	for i := 0; i < k; i++ {
+		if falls(i) {
+			expect++
+		}
+	}
+	delivered := make([]bool, k)
+	for j := 0; j < expect; j++ {
+		c, err := li.Accept()
+		vapi.Assert(err == nil && c != nil, "a connection that fell through was not delivered to Accept")
+		idx := -1
+		for i := 0; i < k; i++ {
+			if c.RemoteAddr().String() == conns[i].RemoteAddr().String() {
+				idx = i
+			}
+		}
+		vapi.Assert(idx >= 0, "Accept returned an unknown connection")
+		vapi.Assert(!delivered[idx], "a connection was delivered twice")
+		delivered[idx] = true
+		vapi.Assert(falls(idx), "a connection consumed or rejected by layer4 was delivered")
+		vapi.Assert(conns[idx].Closed == 0, "a delivered connection was closed by layer4")
+		got := make([]byte, 0, 16)
+		p := make([]byte, 8)
+		for r := 0; r < 5; r++ {
+			n, err := c.Read(p)
+			got = append(got, p[:n]...)
+			if err != nil {
+				vapi.Assert(err == io.EOF, "unexpected read error on a delivered connection")
+				break
+			}
+		}
+		vapi.AssertBytesEqual(got, streams[idx][dw.consumed[idx]:], "a delivered connection does not read its own client's stream from the first unconsumed byte")
+		vapi.Cover("delivered and read")
+		if dw.consumed[idx] > 0 {
+			vapi.Cover("delivered after a handler consumed bytes")
+		}
+	}
+	for i := 0; i < k; i++ {
+		if !delivered[i] {
+			vapi.Assert(conns[i].Closed >= 1, "a connection consumed or rejected by layer4 was not closed")
+		}
+	}
+	vapi.Assert(li.Close() == nil, "Close failed")
+}
+
 // VH_close_pending: the listener is closed while fallen-through connections are
 // still waiting to be accepted: every one of them is either handed out by a
 // later Accept or closed - none is both, none is neither - and nothing stays blocked.
@@ -165,5 +263,6 @@ func VH_close_pending() {
 
 func init() {
 	vapi.Register("c13.VH_listener", VH_listener)
+	vapi.Register("c13.VH_listener_wrap", VH_listener_wrap)
 	vapi.Register("c13.VH_close_pending", VH_close_pending)
 }
